@@ -319,6 +319,7 @@ func cases(thorough bool) []Case {
 func TestCheck(t *testing.T) {
 	r := mc.New(t, "C05")
 	defer r.Finish()
+	r.CrashFails = true
 	record := func(c Case, kind, detail string) {
 		r.Eval(1)
 		r.Transition(len(c.Members) + 1)
